@@ -38,7 +38,7 @@ m = {
         {"name": "coq", "path": "/verif/coq", "serves_properties": sorted(kvprops.PROPS),
          "kind_free_text": "Coq 8.16.1 development: executable models (Chan, Atomic, ...) + theorems; rebuilt by make on every check"},
         {"name": "kx", "path": "/verif/kx", "serves_properties": ["C03", "C04", "C06", "C07", "C17", "C20"],
-         "kind_free_text": "syn-based translator: regenerates coq/theories/gen/*.v (atomic sites with orderings, control skeletons, lock profiles, size dispatch trees, struct/impl tables) from /repo/src on every run"},
+         "kind_free_text": "syn-based translator: regenerates coq/theories/gen/*.v (canonical event automata of the protocol functions and the orderings of their roles, lock-discipline automata of the entry points, size dispatch by partial evaluation per size class, struct/impl tables) from /repo/src on every run"},
         {"name": "h1", "path": "/verif/harness", "serves_properties": [p for p in sorted(kvprops.PROPS) if "h1" in kvprops.PROPS[p]["suites"]],
          "kind_free_text": "Rust harness linking the real crate (cfg kanal_verif) + extracted OCaml model: sequential differential"},
         {"name": "h2", "path": "/verif/harness", "serves_properties": [p for p in sorted(kvprops.PROPS) if "h2" in kvprops.PROPS[p]["suites"]],
